@@ -363,6 +363,23 @@ pub fn big_block_streams(rng: &mut Rng, with_million: bool) -> Vec<(String, Vec<
     let mut v = Vec::new();
     let mut shapes: Vec<(&str, Vec<usize>)> = vec![("70000", vec![70000]), ("70000+70000+3", vec![70000, 70000, 3]), ("100+65636+5", vec![100, 65636, 5])];
     if with_million { shapes.push(("2^20+2^16+4", vec![(1 << 20) + (1 << 16) + 4])); }
+    // last blocks one token either side of the two values at which the estimated block size is capped:
+    // 16386 for streams without references, 32767 otherwise
+    for n in [16386usize, 16387, 16388] {
+        let text: Vec<u8> = (0..n).map(|_| b'0' + rng.below(64) as u8).collect();
+        let toks: Vec<(usize, usize)> = (0..n).map(|_| (1, 0)).collect();
+        v.push((format!("big-blocks/{}-literals", n), encode_fixed(&text, &toks, usize::MAX)));
+    }
+    for n in [32767usize, 32768, 32769] {
+        // n tokens, one of them a reference
+        let mut text: Vec<u8> = (0..n + 4).map(|_| b'0' + rng.below(64) as u8).collect();
+        let head: Vec<u8> = text[50..55].to_vec();
+        text[100..105].copy_from_slice(&head);
+        let mut toks: Vec<(usize, usize)> = (0..100).map(|_| (1, 0)).collect();
+        toks.push((5, 50));
+        toks.extend((0..n - 101).map(|_| (1usize, 0usize)));
+        v.push((format!("big-blocks/{}-tokens-one-reference", n), encode_fixed(&text, &toks, usize::MAX)));
+    }
     for (name, blocks) in shapes {
         let total: usize = blocks.iter().sum();
         let text: Vec<u8> = (0..total).map(|_| b'0' + rng.below(64) as u8).collect();
